@@ -1072,6 +1072,15 @@ func (ex *Ex) trCall(env *Env, e *Expr) (SV, error) {
 		return SV{T: args[0].T, Ty: SType{G: types.Typ[types.UnsafePointer]}}, nil
 	case "fresh":
 		return SV{T: Not(App("alloc0", SBool, args[0].T)), Ty: tBool}, nil
+	case "typeString":
+		// typeString(t): reflect's String() of the type t (typeof(x))
+		return SV{T: App("x$typeString", SString, args[0].T), Ty: SType{G: types.Typ[types.String]}}, nil
+	case "charStr":
+		// charStr(c): the one-character string of a byte / rune
+		return SV{T: App("f$charStr", SString, args[0].T), Ty: SType{G: types.Typ[types.String]}}, nil
+	case "strOf":
+		// strOf(b): string(b) for a byte slice (the conversion the executor uses)
+		return SV{T: App("stringOf$"+args[0].T.S.Mangle(), SString, args[0].T), Ty: SType{G: types.Typ[types.String]}}, nil
 	case "$call":
 		// $call(k): first argument of the k-th call of the closure at the current callback call site
 		cs, ok := env.st.ghost["$callsym"]
